@@ -209,6 +209,8 @@ NOT_COVERED = [
     "first integration node past it — reported to C08; iter(start=None) raises AttributeError — listed by C08); the short-span oracle checks that the "
     "requested dates come first",
     "targets within +-3 orbits are reached by the thorough tier only up to 900 integration steps per run (quick: 130)",
+    "reference steps above 120 s are exercised for the adaptive methods only and only at integration points (the accepted-steps family and the _make_step "
+    "correspondence): what propagate / iter interpolate between integration points minutes apart is outside the property's quantifier (step in [5 s, 120 s])",
 ]
 OPEN = ["the derivation of the local error C h^5 of RK4 (and C h^6 of the order-5 weights) from the proved order conditions for a general C^p field "
         "(Butcher series); with it rk4_global_error_partial becomes unconditional",
@@ -222,7 +224,7 @@ OPEN = ["the derivation of the local error C h^5 of RK4 (and C h^6 of the order-
         "a setting changed on ONE sibling's propagator between creation and consumption of another sibling's iterator is oracle-only (copy() shares the "
         "`bodies` list object between all copies: an in-place `bodies.append` on one sibling reaches all — value semantics, C15)"]
 RULE = ("correspondence: the five method names incl. unknown ones (tableaux bit-exact), _accel with Earth/Moon/Sun combinations on random bound orbits "
-        "(perigee 200 km .. GEO+, e <= 0.74), _make_step for all four methods, steps 5-120 s both signs, tol 1e-9..1e-2, rtol 1e-11 (step size exact when "
+        "(perigee 200 km .. GEO+, e <= 0.74), _make_step for all four methods, steps 5-120 s (adaptive methods: 12 % with a reference step of 120-1800 s) both signs, tol 1e-9..1e-2, rtol 1e-11 (step size exact when "
         "not shrunk); histories of 3-10 operations on ONE real KeplerNum object (constructed in EME2000 / TOD / MOD; assign method incl. upper-case / "
         "unknown names, step, tol, bodies, frame incl. an unknown name; bodies.append / pop in place; prop.orbit = orb (bind), _make_step from the bound "
         "orbit, read prop.orbit; copy(); _make_step on a given state; butcher) against the model's state machine, each disagreeing call also compared with "
@@ -233,7 +235,7 @@ RULE = ("correspondence: the five method names incl. unknown ones (tableaux bit-
         "Orbit.ephem, propagate, native step, step is self.step, listeners) on spans of 1..10 steps, all four methods, against KNIter fed with the "
         "observed accepted step sizes (exact); identity partition of the propagators of the points of several real outputs and which trajectory "
         "interleaved requests on sibling points return, against KNIter.outputsProps / runReqs; non-trivial = step != 0 resp. a call after a change resp. >= 1 integration step; distinct = distinct request "
-        "line. oracle, cheap families first: short spans (1..10 integration steps, the thirteen request forms, every method) iterate vs propagate vs "
+        "line. oracle, cheap families first: EVERY step the adaptive methods accept during one propagate (observed on the real object, both directions, start at a random anomaly or shortly before perigee, spans up to 1.3 revolutions within 25 / 120 steps, tol 1e-6..1e-2, reference step log-uniform in 5-120 s / 120-600 s / 600-1800 s — for the adaptive methods the reference step is only the starting size and upper bound, so the per-step clause does not depend on it): accepted size in (0, reference step] with the sign of the request, local error against the analytical solution from the step's own start state <= 2 tol, last integration point within 10 tol per accepted step (nothing interpolated); short spans (1..10 integration steps, the thirteen request forms, every method) iterate vs propagate vs "
         "analytical; one KeplerNum object re-used after changes of method / step / tol / bodies (also in place) / frame / maneuvers / bound orbit / the "
         "caller's orbit modified in place, shared by two orbit objects that are half of the time DIFFERENT satellites asked the same request, vs a "
         "fresh propagator and vs the analytical solution; sibling points of one output (iter / iter-step / ephem / propagate) as starts of "
@@ -773,12 +775,13 @@ def q(x, step=1e-3):
     return round(x / step) * step
 
 
-def gen_orbit(rng, mu):
-    """bound orbit with perigee above the surface: state at a random anomaly, random orientation"""
+def gen_orbit(rng, mu, nu=None):
+    """bound orbit with perigee above the surface: state at a random anomaly (or at the true anomaly `nu`), random orientation"""
     rp = R_EARTH + rng.choice([200e3, 400e3, 800e3, 1500e3, 8000e3, 20000e3, 35786e3]) * rng.uniform(0.9, 1.1)
     e = rng.choice([0.0, 1e-4, 0.01, 0.1, 0.3, 0.6, 0.74]) * rng.uniform(0.5, 1.0)
     a = rp / (1 - e)
-    nu = rng.uniform(-math.pi, math.pi)
+    if nu is None:
+        nu = rng.uniform(-math.pi, math.pi)
     p = a * (1 - e * e)
     r = p / (1 + e * math.cos(nu))
     rpf = [r * math.cos(nu), r * math.sin(nu), 0.0]
@@ -857,7 +860,12 @@ def correspondence(ctx):
     for _ in range(ctx.n(3200, 100000)):
         o = gen_orbit(rng, mu)
         m = rng.choice(METHODS)
-        maxstep = q(rng.uniform(5, 120)) if rng.random() < 0.9 else rng.choice([5.0, 120.0])
+        r_ = rng.random()
+        # reference steps of the property's range, its end points, and (adaptive methods: the reference step is only an upper
+        # bound) coarse ones up to half an hour, where several shrinking passes are needed
+        maxstep = q(rng.uniform(5, 120)) if r_ < 0.8 else rng.choice([5.0, 120.0]) if r_ < 0.88 else q(math.exp(rng.uniform(math.log(120), math.log(1800))))
+        if maxstep > 120:
+            m = rng.choice(ADAPTIVE)
         h = maxstep * rng.choice([1, 1, 1, -1, -1, 0.5])
         h = timedelta(seconds=h).total_seconds()     # what the timedelta holds (whole microseconds)
         tol = 10 ** rng.uniform(-9, -2) if rng.random() < 0.8 else 1e-3
@@ -1867,6 +1875,77 @@ def check_adaptive(out, o, h, T, mu, method, tol):
     return res
 
 
+def check_accepted_steps(out, o, h, T, mu, method, tol):
+    """every step an adaptive method accepts, over a whole request (the property's clause "stay within a small multiple of
+    their tolerance per step"), for any reference step: `KeplerNum.step` is only the size the adaptive methods start from and
+    may not exceed, so the clause does not depend on it — reference steps far above what the orbit needs (minutes to half an
+    hour) are part of the family.  The accepted steps are observed on the real object during `Orbit.propagate` (both
+    directions); nothing is interpolated: the last integration point is compared with the analytical solution at its own date."""
+    import numpy as np
+    from beyond.dates import timedelta
+    orb = make(o["x0"], h, method, tol=tol)
+    p = orb.propagator
+    rec = []
+    orig = p._make_step
+
+    def ms(y, s_):
+        r = orig(y, s_)
+        rec.append((vec(y), s_.total_seconds(), r[0].total_seconds(), vec(r[1])))
+        return r
+    p._make_step = ms
+    try:
+        res = orb.propagate(timedelta(seconds=T))
+    finally:
+        del p._make_step
+    inp = case_inp(o, h, T, method=method, tol=tol)
+    if not _finite(out, method, "propagate", inp, vec(res)):
+        return
+    # round-off floor of the comparison with the analytical solution (universal-variable Kepler solver): 1e-9 m per 6000 km
+    worst = None
+    for k, (y0, asked, hs, y1) in enumerate(rec):
+        out.count(key=(method, "acc", h, tol, T, k, o["rp"]), kind=method + "-accepted-step", shrunk=abs(hs) < abs(asked),
+                  reference_step="<=120 s" if h <= 120 else "120-600 s" if h <= 600 else "> 600 s")
+        if not (0 < abs(hs) <= abs(asked) and (hs > 0) == (asked > 0) and abs(abs(asked) - h) <= 1e-6):
+            out.fail(method + "-step-size", "a step accepted during propagate is not in (0, reference step] with the sign of the request", dict(inp, step_index=k),
+                     observed={"asked": asked, "accepted": hs}, expected=h)
+            return
+        if not _finite(out, method, "accepted step", dict(inp, step_index=k), y1):
+            return
+        e1 = float(np.linalg.norm(y1[:3] - kepler_ref(list(y0), hs, mu)[:3]))
+        fl = 1e-9 * float(np.linalg.norm(y0[:3])) / 6e6
+        if worst is None or e1 - fl > worst[0]:
+            worst = (e1 - fl, k, hs, e1, [float(v) for v in y0])
+    if worst and worst[0] > 2 * tol:
+        out.fail(method + "-accepted-step-error", "a step accepted by the adaptive method during propagate has a local error (against the analytical two-body "
+                 "solution from the state it started from) above 2 tol", dict(inp, step_index=worst[1], accepted_step=worst[2], from_state=worst[4]),
+                 observed=worst[3], expected=2 * tol)
+    if rec:
+        tt = sum(r[2] for r in rec)
+        end = rec[-1][3]
+        err = float(np.linalg.norm(end[:3] - kepler_ref(o["x0"], tt, mu)[:3]))
+        bound = 1e-8 * o["rp"] / 6e6 * (1 + o["n_p"] * abs(tt)) + 10 * (len(rec) + 8) * tol * (1 + o["n_p"] * abs(tt))
+        out.count(key=(method, "acc-end", h, tol, T, o["rp"]), kind=method + "-integration-point-error")
+        if err > bound:
+            out.fail(method + "-integration-point-error", "the last integration point of the request is farther from the analytical solution than 10 tol per accepted "
+                     "step (x along-track growth)", dict(inp, accepted_steps=len(rec), span=tt), observed=err, expected=bound)
+    return res
+
+
+def plan_accepted(rng, mu, k, max_steps):
+    """orbit, reference step, tolerance and span for `check_accepted_steps`: reference steps from the property's 5-120 s up to half an
+    hour (log-uniform), start at a random anomaly or shortly before perigee (where the step the tolerance needs is smallest),
+    forward and backward, spans up to 1.3 revolutions within the step budget of the tier"""
+    o = gen_orbit(rng, mu, nu=None if k % 3 else rng.uniform(-0.6, 0.1) * (1 if k % 2 else -1))
+    lo, hi = ((5.0, 120.0), (120.0, 600.0), (600.0, 1800.0))[(k // 3) % 3 if rng.random() < 0.8 else rng.randrange(3)]
+    h = q(math.exp(rng.uniform(math.log(lo), math.log(hi))))
+    tol = 1e-3 if k % 4 == 0 else 10 ** rng.uniform(-6, -2)
+    # an adaptive method needs about period / 60 .. period / 200 per step around perigee: the span is cut to the budget
+    T = q((1 if k % 2 else -1) * min(rng.uniform(0.15, 1.3) * o["period"], max_steps * min(h, o["period"] / 120)))
+    if T == 0:
+        T = h
+    return o, h, tol, T
+
+
 def check_independence(out, o, h, mu, method, rng, tol=1e-3):
     """same integration grid, different requests: iter with two output steps, iter over explicit dates, propagate(date)"""
     import numpy as np
@@ -2325,6 +2404,18 @@ def oracle(ctx, widened):
             T = h
         return o, h, T
 
+    # ---- phase A0: every accepted step of the adaptive methods over a request, reference steps from 5 s to half an hour
+    nA0 = 240 if big else 36
+    for k in range(nA0):
+        if found():
+            break
+        if time.time() - t_start > (90 if ctx.thorough else 40 if widened else 6):
+            out.notes.append(f"oracle phase A0 stopped after {k} of {nA0} orbits: time budget of the tier reached")
+            break
+        o, h, tol, T = plan_accepted(rng, mu, k, 120 if big else 25)
+        ma = ADAPTIVE[(k // 2) % 2]
+        run("accepted-" + ma, dict(case_inp(o, h, T), method=ma, tol=tol), check_accepted_steps, out, o, h, T, mu, ma, tol)
+    t_start = time.time()   # the budgets of the phases below count from here
     # ---- phase A: the cheap families (a few dozen integration steps each), every method, both directions
     nA = ncases * 2
     for k in range(nA):
@@ -2376,7 +2467,7 @@ def oracle(ctx, widened):
     out.sample({"checks": "short spans (1..10 integration steps; output step smaller / equal / larger / incommensurate, date lists, ranges, backward, "
                           "offset start, Orbit.ephem) iterate vs propagate vs analytical, every method; one KeplerNum object re-used after changes of "
                           "method / step / tol / bodies / frame / maneuvers / bound orbit vs a fresh propagator; rk4 order by step halving + error bound + "
-                          "first integrals; euler order; rkf54/dopri54 global error, drift, one-step error <= 2 tol; independence of output step, dates vs "
+                          "first integrals; euler order; rkf54/dopri54 global error, drift, one-step error <= 2 tol, every accepted step of a request (reference step 5 s .. 30 min) <= 2 tol; independence of output step, dates vs "
                           "step, propagate vs iterate; chained propagate keeps settings"})
     return out
 
@@ -2464,6 +2555,8 @@ def replay(f):
     elif fam.startswith("independence") or fam.startswith("iter"):
         for s_ in range(20):
             guarded(out, B, "independence-" + i["method"], i, check_independence, out, o, i["step"], mu, i["method"], random.Random(s_))
+    elif "accepted-step" in fam or "integration-point" in fam or fam.startswith("accepted-") or (fam.endswith("-step-size") and "step_index" in i):
+        guarded(out, B, "accepted-" + i["method"], i, check_accepted_steps, out, o, i["step"], i["T"], mu, i["method"], i.get("tol", 1e-3))
     elif "method" in i:
         guarded(out, B, i["method"], i, check_adaptive, out, o, i["step"], i["T"], mu, i["method"], i.get("tol", 1e-3))
     return out
